@@ -18,7 +18,8 @@ Spec == Init /\ [][Next]_t
 MTok(k) == [ty |-> k.ty, lit |-> k.lit, nl |-> k.nl, ok |-> k.ok]
 
 Judge ==
-  LET r     == Trace[t]
+  LET r0    == Trace[t]
+      r     == [r0 EXCEPT !.res = [@ EXCEPT !.tree = Unflat(@)]]
       fails == C11_Failures(r.toks, r.res)
       P     == [DefaultP([j \in 1..Len(r.toks) |-> MTok(r.toks[j])])
                   EXCEPT !.tolerant = r.tolerant, !.smart = r.smart]
